@@ -427,6 +427,23 @@ class Repo:
             return self.resolve_class(name, ctx_module)
         return cands[0] if cands else None
 
+    def alias_type(self, name: str):
+        """`Name = <annotation expr>` at module level (type alias) -> Ty, else None"""
+        cache = self.__dict__.setdefault("_alias_cache", {})
+        if name in cache:
+            return cache[name]
+        self.load_all()
+        res = None
+        for mi in self.modules.values():
+            expr = mi.constants.get(name)
+            if expr is not None and not isinstance(expr, ast.Call):
+                t = parse_ann(expr)
+                if t is not None and t.name != name:
+                    res = t
+                    break
+        cache[name] = res
+        return res
+
     def subclasses(self, ci: ClassInfo) -> list[ClassInfo]:
         self.load_all()
         out = []
